@@ -901,6 +901,11 @@ pub fn rec_expiry(args: &Args) {
             let other = mkreq(&ReqSpec { code: *r.pick(&[1u8, 2, 3]), typ: 0, mid: next_mid(), tok: vec![3], segs: &[format!("o{}", i % 50).into_bytes()], b1: None, b2: None, pay: vec![], extra: vec![] });
             let mut req = CoapRequest::from_packet(other, Ep::new(&format!("other{}", i % 17)));
             let _ = guarded(|| h.h.intercept_request(&mut req));
+            // a complete exchange: the application answers and the reply passes through the handler
+            if let Some(resp) = req.response.as_mut() {
+                resp.message.payload = vec![7; i % 40];
+            }
+            let _ = guarded(|| h.h.intercept_response(&mut req));
         }
         out.ev(json!({"op": "unlogged", "n": n}));
         let p1 = mkreq(&ReqSpec { code: 1, typ: 0, mid: next_mid(), tok: vec![4], segs: &seg, b1: None, b2: Some((1, false, 0)), pay: vec![], extra: vec![] });
